@@ -111,7 +111,7 @@ def run_job(job, root, pid_prop):
         if os.environ.get("TJV_RECORD"):
             os.makedirs(os.path.dirname(exp_file), exist_ok=True)
             keep = sorted(set(r["desc"] for r in jr.results if classify(job, r["desc"], r["name"])[0] == "prop"
-                              and not SAFETY.search(r["desc"])))
+                              and not SAFETY.search(r["desc"]) and re.search(r"\.assertion\.\d+$|postcondition", r["name"])))
             open(exp_file, "w").write("# property-level obligations expected from job %s (recorded on the pinned tree)\n" % job["name"]
                                       + "\n".join(keep) + "\n")
         for r in jr.results:
